@@ -1448,7 +1448,12 @@ func (vx *Vaxis) openTty(tgts []*os.File) error {
 		}()
 		for {
 			select {
-			case seq := <-vx.parser.Next():
+			case seq, ok := <-vx.parser.Next():
+				if !ok {
+					// The parser stopped and its EOF was taken
+					// by whoever waited for it
+					return
+				}
 				switch seq := seq.(type) {
 				case ansi.EOF:
 					return
